@@ -194,16 +194,52 @@ func runCheck(cfg checkCfg) int {
 		}
 	}
 	DischargeAll(todo, pre, tmp, timeout, needTwo, 16)
+	// vacuity after a call: an alarm only if the contract made a FEASIBLE path infeasible
+	var pres []*VC
+	back := map[*VC]*VC{}
+	for _, vc := range allVCs {
+		if vc.Kind == "vacuity" && vc.PreAsserts != nil {
+			if vc.Result != "unsat" {
+				vc.Result = "sat" // satisfiable, or undecided: no alarm
+				continue
+			}
+			p := &VC{Name: vc.Name + ":before", Func: vc.Func, Kind: "vacuity", Goal: "true", ExpectSat: true, Decls: vc.PreDecls, Asserts: vc.PreAsserts}
+			pres = append(pres, p)
+			back[p] = vc
+		}
+	}
+	if len(pres) > 0 {
+		DischargeAll(pres, pre, tmp, timeout, false, 16)
+		for _, p := range pres {
+			if p.Result != "sat" {
+				back[p].Result = "sat" // the path was infeasible (or undecided) before the call already
+			}
+		}
+	}
 
 	// group by obligation name
 	obs := map[string]*ObResult{}
 	var order []string
 	covers, coverSat := 0, 0
+	type covStat struct {
+		n, unsat int
+		first    *VC
+	}
+	covBy := map[string]*covStat{}
 	for _, vc := range allVCs {
 		if vc.Kind == "cover" {
 			covers++
 			if vc.Result == "sat" {
 				coverSat++
+			}
+			cs := covBy[vc.Func]
+			if cs == nil {
+				cs = &covStat{first: vc}
+				covBy[vc.Func] = cs
+			}
+			cs.n++
+			if vc.Result == "unsat" {
+				cs.unsat++
 			}
 			continue
 		}
@@ -229,6 +265,16 @@ func runCheck(cfg checkCfg) int {
 		if vc.Result != good {
 			o.Result = "failed"
 			o.failing = append(o.failing, vc)
+		}
+	}
+	// vacuity guard: a function none of whose returns can be reached proves nothing
+	for fn, cs := range covBy {
+		if cs.n > 0 && cs.unsat == cs.n {
+			full := fn + "#vacuity:no-return-reachable"
+			v := *cs.first
+			v.Kind, v.Name = "vacuity", "vacuity:no-return-reachable"
+			obs[full] = &ObResult{Name: full, Kind: "vacuity", Result: "failed", Note: "no return of the function is reachable under its contract and the contracts of its callees", VCs: cs.n, failing: []*VC{&v}}
+			order = append(order, full)
 		}
 	}
 	sort.Strings(order)
